@@ -832,6 +832,39 @@ def _fill_writes(ctx, t):
     return may, must
 
 
+def rule_status_ids(ctx, R="C04/status-ids"):
+    """`every attachable thread ... appears`: a thread's registers are read only after its /proc/<tid>/status gave a Tgid and a PPid, and
+    the thread-list writer turns a failure there into a failed dump.  So get_ppid_and_tgid may refuse a thread only when a LINE is
+    missing: the marker for "line not seen" is a value no line the kernel prints can parse to (negative; `PPid: 0` is what the init of a
+    pid namespace, or a process whose parent is outside the namespace, shows), and each id is compared with that very marker."""
+    b = ctx.body(R, "linux::thread_info::CommonThreadInfo::get_ppid_and_tgid")
+    if b is None:
+        return
+    o = Origin(b)
+    ex = Exits(b)
+    n = 0
+    for eb in sorted(ex.err_blocks()):
+        dnf = conditions(b, eb, origin=o, relevant=lambda a: a[0] == "bin" and a[1] in ("Eq", "Ne", "Lt", "Le", "Gt", "Ge"))
+        atoms = {(nosite(a), v) for c in (dnf or []) for (a, v) in c}
+        if not atoms:
+            continue
+        n += 1
+        bad = []
+        for a, v in sorted(atoms, key=repr):
+            x, y = strip(a[2]), strip(a[3])
+            if is_const(core(x)):
+                x, y = y, x
+            ok = a[1] == "Eq" and x[0] == "phi" and is_const(core(y)) and isinstance(core(y)[1], int) and core(y)[1] < 0 \
+                and any(is_const(core(q)) and core(q)[1] == core(y)[1] for q in x[1] if isinstance(q, tuple)) \
+                and any(isinstance(q, tuple) and any(z[0] == "call" and z[1].split("::")[-1] == "parse" for z in walk(q)) for q in x[1])
+            if not ok:
+                bad.append(show(a)[:90])
+        ctx.check(not bad, R, ("refusal", n), b.where(eb), "a thread is refused only when an id still holds the negative `line not seen` marker",
+                  "get_ppid_and_tgid refuses a thread on %s: an id the kernel really prints (`PPid: 0` in a pid namespace) is taken for a missing line, and the thread list fails as a whole" % bad[:2])
+    # (no floor: an `Option` instead of a marker leaves no comparison at all, which is fine; the anchor is the function itself)
+    ctx.ok(R, ("refusals", "counted"), b.where(0), "value-dependent refusals in get_ppid_and_tgid: %d" % n, nontrivial=False)
+
+
 def rule_ptrace_requests(ctx, R="C04/ptrace-requests"):
     """`equal to the registers the thread had` starts with asking the kernel for the right thing: each getter issues the request
     number and note type of the Linux ptrace ABI for the struct it returns, for the tid it was given; the shared helpers hand the
@@ -924,6 +957,7 @@ def run(ctx):
     rule_lane_copy(ctx)
     rule_hard_decode(ctx)
     rule_every_tid_listed(ctx)
+    rule_status_ids(ctx)
     # a thread that could not be attached is omitted *and reported*: the failing-attach branch pushes that error
     from rules import c11
     c11.rule_soft_sites(ctx, R="C04/omitted-thread-reported", only=("suspend_thread",), floor=1)
@@ -939,3 +973,6 @@ def run(ctx):
     # the small accessors and pass-through wrappers the rules above look through by name return what their names say (rules/accessors.py)
     from rules import accessors as _acc
     _acc.rule_accessors(ctx, "C04")
+    # the stream this property talks about is all-or-nothing: generate_dump succeeds only if its writer returned Ok (rules/c01.py rule_hard_streams)
+    from rules import c01 as _c01h
+    _c01h.rule_hard_streams(ctx, R="C04/hard-streams", only=('thread_list_stream::write',))
